@@ -52,13 +52,15 @@ def generate(rng, tier):
         vals = gen.gen_values(rng, kind, nrow, na, rng.choice(["few", "few", "few", "distinct", "equal"]), hostile=0.5, tags=tags)
         spec.append((f"g{j}", kind, vals))
         by.append(f"g{j}")
-    xkind = rng.choice(["float", "float", "int", "bool"])
+    xkind = rng.choice(["float", "float", "int", "bool", "date", "str", "timedelta", "datetime"])
     spec.append(("x", xkind, gen.gen_values(rng, xkind, nrow, rng.choice(["none", "some", "some", "all"]), "few", 0.0, tags)))
     rng.shuffle(by)
     op = rng.choice(["aggregate", "aggregate", "aggregate", "count", "split", "modify"])
     case = {"op": op, "spec": spec, "by": by, "tags": sorted(tags)}
     if op == "aggregate":
         name, kw = rng.choice(HELPERS)
+        while xkind in ("date", "str", "timedelta", "datetime") and name in ("all", "any", "mean", "median", "quantile", "std", "var", "sum"):
+            name, kw = rng.choice(HELPERS)        # value columns that are not numbers: the helpers defined for every type
         case["helper"] = (name, dict(kw))
     if nrow and rng.random() < 0.25:
         col = by[0]
